@@ -5,6 +5,7 @@ package cl
 import (
 	"fmt"
 	"io"
+	"strings"
 
 	"github.com/ohler55/slip"
 )
@@ -66,7 +67,7 @@ func (f *Defun) Call(s *slip.Scope, args slip.List, depth int) (result slip.Obje
 	if !ok {
 		slip.TypePanic(s, depth, "name argument to defun", args[0], "symbol")
 	}
-	pkg, low, _ := slip.UnpackName(string(name))
+	pkg, low, _ := slip.UnpackName(strings.ToLower(string(name)))
 	if pkg == nil {
 		pkg = slip.CurrentPackage
 	}
